@@ -199,6 +199,98 @@ func c13SameNamedTypes(b *core.B) {
 	}
 }
 
+// Methods of same-named types: the types differ in what they embed, so the method sets differ
+// (in members and in the position of a member of the same name).
+type c13MethA struct{ tag string }
+
+func (m c13MethA) Name() string  { return "name-of-" + m.tag }
+func (m c13MethA) Title() string { return "title-of-" + m.tag }
+
+type c13MethB struct{ tag string }
+
+func (m c13MethB) Alias() string { return "alias-of-" + m.tag }
+func (m c13MethB) Name() string  { return "name-of-" + m.tag }
+
+type c13MethC struct{ tag string }
+
+func (m *c13MethC) Name() string  { return "ptr-name-of-" + m.tag }
+func (m c13MethC) Zeta() string   { return "zeta-of-" + m.tag }
+func (m c13MethC) Alias() string  { return "alias-of-" + m.tag }
+func (m c13MethC) Middle() string { return "middle-of-" + m.tag }
+
+func c13UserA() interface{} {
+	type User struct{ c13MethA }
+	return User{c13MethA{"A"}}
+}
+
+func c13UserB() interface{} {
+	type User struct{ c13MethB }
+	return User{c13MethB{"B"}}
+}
+
+func c13UserC() interface{} {
+	type User struct{ c13MethC }
+	return &User{c13MethC{"C"}}
+}
+
+func c13UserD() interface{} {
+	type User struct{ c13MethC }
+	return User{c13MethC{"D"}}
+}
+
+// c13SameNamedMethods: a method call on a value means the method of that name of *its* type,
+// whatever same-named types were seen before. The reference is Go's own lookup.
+func c13SameNamedMethods(b *core.B) {
+	vals := []interface{}{c13UserA(), c13UserB(), c13UserC(), c13UserD()}
+	names := []string{"Name", "Title", "Alias", "Zeta", "Middle"}
+	want := func(v interface{}, name string) (string, bool) {
+		rv := reflect.ValueOf(v)
+		m := rv.MethodByName(name)
+		if !m.IsValid() && rv.Kind() != reflect.Ptr {
+			// the engine calls pointer methods on a copy of a value that is not addressable
+			pv := reflect.New(rv.Type())
+			pv.Elem().Set(rv)
+			m = pv.MethodByName(name)
+		}
+		if !m.IsValid() {
+			return "", false
+		}
+		return m.Call(nil)[0].String(), true
+	}
+	r := b.Rng(0xC13A)
+	for round := 0; round < 6; round++ {
+		order := []int{0, 1, 2, 3, 0, 1, 2, 3, 0, 1, 2, 3}
+		for i := len(order) - 1; i > 0; i-- {
+			j := r.Intn(i + 1)
+			order[i], order[j] = order[j], order[i]
+		}
+		if !b.Begin(fmt.Sprintf("methods of same-named struct types, order %v", order)) {
+			continue
+		}
+		b.NonTrivialStr("same-named-methods", fmt.Sprint(order))
+		b.Count("same-named-struct-types-methods")
+	steps:
+		for step, k := range order {
+			for _, name := range names {
+				for _, text := range []string{"<%= u." + name + "() %>", "<%= us[0]." + name + "() %>", "<% let x = u %><%= x." + name + "() %>"} {
+					ctx := plush.NewContext()
+					ctx.Set("u", vals[k])
+					ctx.Set("us", []interface{}{vals[k]})
+					res := render(b, text, ctx)
+					if res.Pan != nil {
+						break steps
+					}
+					w, ok := want(vals[k], name)
+					if ok && (res.Err != nil || res.Out != w) || !ok && res.Err == nil && res.Out != "" {
+						b.Violate("depends-on-earlier-renders|same-named-struct-types|methods", fmt.Sprintf("step %d of order %v: %s on a %T (%d methods): Go finds %q (exists: %v), got %s", step, order, text, vals[k], reflect.TypeOf(vals[k]).NumMethod(), w, ok, res))
+						break steps
+					}
+				}
+			}
+		}
+	}
+}
+
 // c13MadeInTheTemplate: values that a template makes while it runs (iterators) are new
 // objects in every execution; nothing about their identity may reach output or error text.
 func c13MadeInTheTemplate(b *core.B) {
@@ -375,6 +467,7 @@ func c13Run(b *core.B) {
 		c13AfterAFailedExecution(b)
 		c13NestedFailure(b)
 		c13SameNamedTypes(b)
+		c13SameNamedMethods(b)
 		c13MadeInTheTemplate(b)
 		c13ErrorTexts(b)
 	}
